@@ -7,7 +7,7 @@ def mk(n, nth, split, stable, quick, mask=3, timeout=None):
                  % ('stable_' if stable else '', n, mask, nth, split),
                  defs=['NEL=%d' % n, 'NTH=%d' % nth, 'SPLIT=MWMSA_%s' % split.upper(), 'STABLE=%d' % stable, 'KEYMASK=%d' % mask], link=['tlx/algorithm/parallel_multiway_merge.cpp'],
                  conc=True, nt=nth + 1, rounds=14 * nth + 6, ll2c=['--alloc-cap', '128', '--introsort-small'], tiers=('quick', 'thorough') if quick else ('thorough',),
-                 timeout=timeout or (5400 if quick else 21600), unwind=4, max_unwind=80, weight=n * nth, mem_gb=36)
+                 timeout=timeout or (5400 if quick else 21600), unwind=4, max_unwind=80, weight=n * nth, mem_gb=36, recursion=2)
 
 def queries():
     qs = []
